@@ -673,6 +673,11 @@ func (g Gateway) GetByIndexStream(in *hydrapb.GetByIndexStreamRequest, stream hy
 			return status.Error(codes.Internal, fmt.Sprintf("hydra error: %s", err.Error()))
 		}
 		residualFilters = plan.Residual
+		if hasAnyLabels(filters) {
+			// MatchedLabels must also carry the labels of the indexed
+			// leg(s): evaluate the whole group on the candidates.
+			residualFilters = filters
+		}
 	} else {
 		// Bypass: legacy beacon walk, full per-row predicate.
 		var err error
@@ -812,6 +817,12 @@ func (g Gateway) GetByIndexStreamFromMany(in *hydrapb.GetByIndexStreamFromManyRe
 					return false, status.Error(codes.Internal, fmt.Sprintf("hydra error: %s", err.Error()))
 				}
 				residualFilters = plan.Residual
+				if hasAnyLabels(filters) {
+					// MatchedLabels must also carry the labels of the
+					// indexed leg(s): evaluate the whole group on the
+					// candidates.
+					residualFilters = filters
+				}
 			} else {
 				treasures, err = swampInterface.GetTreasuresByBeacon(
 					beaconType, order,
